@@ -191,7 +191,7 @@ INVARIANT Export
     ctx.register_predicates({})
     # the jax scenarios go to one worker (one jit compilation per function), the NumPy ones are spread
     numpy_items = kinds['abs'] + kinds['norm'] + kinds['arctan2']
-    n = min(8, nproc())
+    n = min(3, nproc())         # the NumPy scenarios are cheap: process start-up dominates
     chunks = [numpy_items[i::n] for i in range(n)]
     chunks = [c for c in chunks if c] + [kinds['smooth']]
     res = pmap(_worker, chunks, nproc=n + 1)
